@@ -42,6 +42,7 @@ ENTRIES = [
     ('operator-(group)', 'g', 'd << (X - Y);'),
     ('between', 'g', 'd << X.between(Y);'),
     ('between(J,J)', 'g', 'd << X.between(Y, Ja, Jb) << Ja << Jb;'),
+    ('binary-ops(mixed-storage)', 'g', 'd << X.compose(Yo) << Xo.compose(Y) << X.between(Yo) << Xo.rminus(Y) << X.lminus(Yo) << (Xo * Y) << (X - Yo) << (Xo.isApprox(Y) ? 1 : 0) << X.rplus(to) << Xo.lplus(t);'),
     ('isApprox', 'g', 'd << (X.isApprox(Y) ? 1 : 0) << (X.isApprox(X, S(1e-3)) ? 1 : 0);'),
     ('operator==', 'g', 'd << ((X == Y) ? 1 : 0) << ((X == X) ? 1 : 0);'),
     ('coeffs', 'g', 'd << X.coeffs();'),
@@ -79,6 +80,8 @@ ENTRIES = [
     ('inner', 't', 'd << t.inner(s);'),
     ('weightedNorm', 't', 'd << t.weightedNorm() << t.squaredWeightedNorm();'),
     ('bracket', 't', 'd << t.bracket(s);'),
+    ('bracket(mixed-storage)', 't', 'd << t.bracket(so) << so.bracket(t) << T::Bracket(to, s);'),
+    ('inner(mixed-storage)', 't', 'd << t.inner(so) << so.inner(t);'),
     ('tangent-isApprox', 't', 'd << (t.isApprox(s) ? 1 : 0) << (t.isApprox(t) ? 1 : 0) << (t.isApprox(s.coeffs()) ? 1 : 0);'),
     ('tangent-operator==', 't', 'd << ((t == s) ? 1 : 0) << ((t == t.coeffs()) ? 1 : 0);'),
     ('unary-', 't', 'd << (-t);'),
@@ -202,7 +205,7 @@ CELL = r'''
 static void cell_%(k)d_%(st)s(Fixture& F) {
   F.reset();
   Jac Ja, Jb; Eigen::Matrix<S, G::Dim, G::DoF> Jm; Eigen::Matrix<S, G::Dim, G::Dim> Jp;
-  const G& Xo = F.Xo; const T& to = F.to; const T& so = F.so; const typename G::Vector& p = F.p; const std::vector<G>& cloud = F.cloud;
+  const G& Xo = F.Xo; const G& Yo = F.Yo; (void)Yo; const T& to = F.to; const T& so = F.so; const typename G::Vector& p = F.p; const std::vector<G>& cloud = F.cloud;
   (void)Ja; (void)Jb; (void)Jm; (void)Jp; (void)Xo; (void)to; (void)so; (void)p; (void)cloud;
 %(decl)s
   Dg d;
